@@ -483,6 +483,9 @@ func renderControl(w io.Writer, data controlData) error {
 		"multiline": func(strs string) string {
 			var b strings.Builder
 			s := bufio.NewScanner(strings.NewReader(strings.TrimSpace(strs)))
+			// a line may exceed the scanner's default token limit of 64 KiB: the
+			// rest of the description would be dropped silently
+			s.Buffer(nil, len(strs)+1)
 			s.Scan()
 			b.Write(bytes.TrimSpace(s.Bytes()))
 			for s.Scan() {
